@@ -15,16 +15,24 @@ Local Open Scope Z_scope.
 
 (** ** Fuel monotonicity: a call that returns, returns the same with more fuel *)
 
+(** The proofs follow the structure of the generated term generically (binds, conditionals, pairs), so that they
+    do not depend on the exact shape of the loop body. *)
+Ltac mono_step IH :=
+  match goal with
+  | H : ?x = Some _ |- ?x = Some _ => exact H
+  | H : None = Some _ |- _ => discriminate H
+  | H : obind ?m _ = Some _ |- _ => destruct m as [?|]; cbn [obind] in H |- *
+  | H : (if ?c then _ else _) = Some _ |- _ => destruct c
+  | H : (let (_, _) := ?p in _) = Some _ |- _ => destruct p
+  | H : _ = Some _ |- _ => eapply IH; [exact H|lia]
+  end.
+
 Lemma inc_loop_mono fuel : forall r nb v, brc_inc_loop1 fuel r nb = Some v ->
   forall fuel', (fuel <= fuel')%nat -> brc_inc_loop1 fuel' r nb = Some v.
 Proof.
   induction fuel as [|fuel IH]; intros r nb v H fuel' Hle; [discriminate|].
   destruct fuel' as [|fuel']; [lia|]. cbn [brc_inc_loop1] in *.
-  destruct (c_ge nb 0); [|assumption].
-  destruct (complement_u64 r nb) as [[t2 t3]|]; cbn [obind] in *; [|discriminate].
-  destruct (negb t2); [assumption|].
-  destruct (ssub i32 nb 1); cbn [obind] in *; [|discriminate].
-  apply IH; [assumption|lia].
+  repeat mono_step IH.
 Qed.
 
 Lemma dec_loop_mono fuel : forall r nb v, brc_dec_loop1 fuel r nb = Some v ->
@@ -32,11 +40,7 @@ Lemma dec_loop_mono fuel : forall r nb v, brc_dec_loop1 fuel r nb = Some v ->
 Proof.
   induction fuel as [|fuel IH]; intros r nb v H fuel' Hle; [discriminate|].
   destruct fuel' as [|fuel']; [lia|]. cbn [brc_dec_loop1] in *.
-  destruct (c_ge nb 0); [|assumption].
-  destruct (complement_u64 r nb) as [[t2 t3]|]; cbn [obind] in *; [|discriminate].
-  destruct t2; [assumption|].
-  destruct (ssub i32 nb 1); cbn [obind] in *; [|discriminate].
-  apply IH; [assumption|lia].
+  repeat mono_step IH.
 Qed.
 
 Lemma brc_inc_mono fuel fuel' s v : brc_inc fuel s = Some v -> (fuel <= fuel')%nat -> brc_inc fuel' s = Some v.
